@@ -22,6 +22,8 @@ impl Check for C13 {
         let (mc, mr) = (24, 8);
         let (cols, rows) = gen_size(r, mc, mr);
         let (cols, rows) = maybe_gigantic(r, (cols, rows));
+        // the builder's default geometry (no size() call, see obs::build)
+        let (cols, rows) = if r.chance(1, 40) { (80, 24) } else { (cols, rows) };
         let limit = *r.pick(&[Some(0), Some(0), Some(1), Some(2), Some(5), Some(9), Some(10), Some(11), Some(15), Some(20), Some(30), Some(100), Some(100), Some(1000), Some(1001), Some(1500), None]);
         let cfg = Config { cols, rows, limit };
         let mut p = Profile::chaos();
@@ -44,7 +46,21 @@ impl Check for C13 {
         let policy = *r.pick(&CUT_POLICIES);
         let dp = *r.pick(&[DrainPolicy::AlwaysAll, DrainPolicy::Mixed, DrainPolicy::Mixed, DrainPolicy::AlwaysDrop]);
         let mut gs = GenStats::default();
-        let evs = gen_events(r, &cfg, &o, policy, dp, &mut gs);
+        let mut evs = gen_events(r, &cfg, &o, policy, dp, &mut gs);
+        if let Some(v) = super::draw_volume(r, limit.is_some()) {
+            // a volume string as one call of its own
+            let s = super::volume_string(r, v);
+            let at = r.usize_below(evs.len() + 1);
+            let vevs = super::volume_events(&s, 1, r);
+            evs.splice(at..at, vevs);
+            st.bump("volume_runs");
+            st.bump(match v {
+                super::Volume::Lines17 => "volume_2p17_rows_in_one_call",
+                super::Volume::Lines20 => "volume_2p20_rows_in_one_call",
+                super::Volume::Rep20 => "volume_2p20_cells_repeated_in_one_call",
+                super::Volume::Chars21 => "volume_2p21_characters_in_one_call",
+            });
+        }
         super::record_gen(st, &gs);
         super::count_events(st, &evs);
         let mut t = Trace::new("C13", cfg);
@@ -126,7 +142,7 @@ impl Check for C13 {
     }
     fn meta(&self) -> Meta {
         Meta {
-            rule: "scroll-heavy chaos sessions under every limit (0,1,2,5,9,10,11,15,20,30,100,1000,1001,1500,None; line-feed bursts of 1150-4000 and rarely 72200 rows), consumer draining all / k / nothing, narrowing resizes, alternate-screen excursions; after each feed_str/resize whose Changes is gone: lines().len() <= rows + L + L/10, == rows for L = 0, == rows while the alternate screen shows (known from the lock-step function stream); non-trivial = a trim fired, scrollback was non-empty or the run ended on the alternate screen; distinct = (final screen, peak scrollback) digests",
+            rule: "volume faults (1 run in ~1400: one feed_str call scrolling 2^17+ / 2^20+ rows off, 17-20 x REP 65535, or 2^21+ characters); terminals built through the builder with and without a size() call (80x24 default); scroll-heavy chaos sessions under every limit (0,1,2,5,9,10,11,15,20,30,100,1000,1001,1500,None; line-feed bursts of 1150-4000 and rarely 72200 rows), consumer draining all / k / nothing, narrowing resizes, alternate-screen excursions; after each feed_str/resize whose Changes is gone: lines().len() <= rows + L + L/10, == rows for L = 0, == rows while the alternate screen shows (known from the lock-step function stream); non-trivial = a trim fired, scrollback was non-empty or the run ended on the alternate screen; distinct = (final screen, peak scrollback) digests",
             assumptions: vec!["'alternate screen showing' is derived from the DECSET/DECRST/RIS functions the lock-step real parser dispatched", "no bound is stated after feed(char), none is checked", "a run in which avt panics is abandoned (C01's subject)"],
             real: vec!["avt::Vt", "avt::parser::Parser (lock-step)"],
             simulated: vec!["App (scroll-heavy)", "Pipe", "Window (narrowing resizes)", "Consumer (all / partial / drop)"],
